@@ -17,9 +17,9 @@ def check(pid):
 
 ALL_FIELDS = ["init", "len", "empty", "cap", "avail", "full", "kind", "fifo", "idx", "front",
               "back", "bits", "ronly", "paren", "padded", "cannest", "nesting", "err", "canmtx",
-              "id", "cat", "delim", "sym", "enc", "isenc", "elems", "integ"]
+              "id", "cat", "delim", "sym", "enc", "isenc", "elems", "integ", "locked"]
 
-SM_DEFAULT = dict(Vals=["nil", "a", "b"], MaxLen=3, Caps=[0], Kinds=["AND"], InitOpts=[[]],
+SM_DEFAULT = dict(Vals=["nil", "a", "b"], MaxLen=3, Caps=[0], Kinds=["AND"], InitOpts=[[]], InitMtx=[False],
                   Fams=["list"], OptFlags=[], PushLens=[1, 2], DstCaps=[0], DstOps=["push", "pop"], IdxMode="existing",
                   invariants=["TypeOK", "CapInv", "CapObs", "StepProps"],
                   properties=["FifoLatch", "DeadStaysDead"], depth=2, walks=300, wlen=40)
@@ -33,6 +33,7 @@ def sm_cfg(c, out):
              "  Caps = " + tla_set(map(str, c["Caps"])),
              "  Kinds = " + tla_str_set(c["Kinds"]),
              "  InitOpts = " + optsets,
+             "  InitMtx = " + tla_set("TRUE" if b else "FALSE" for b in c["InitMtx"]),
              "  Fams = " + tla_str_set(c["Fams"]),
              "  OptFlags = " + tla_str_set(c["OptFlags"]),
              "  PushLens = " + tla_set(map(str, c["PushLens"])),
@@ -85,7 +86,7 @@ def sm_table_stage(work, v, findings, prop, harness, name, c, fields, acc):
     acc["evaluations"] += s["steps_executed"]
     acc["transitions_replayed"] += s["transitions_replayed"]
     acc["instances"].append(dict(name=name, constants={k: c[k] for k in
-                            ("Vals", "MaxLen", "Caps", "Kinds", "InitOpts", "Fams", "IdxMode", "PushLens", "DstCaps", "OptFlags")},
+                            ("Vals", "MaxLen", "Caps", "Kinds", "InitOpts", "InitMtx", "Fams", "IdxMode", "PushLens", "DstCaps", "OptFlags")},
                             tlc_distinct_states=res["distinct"], tlc_generated=res["generated"],
                             table_transitions=s["transitions"], paths_depth=c["depth"],
                             paths_replayed=s["paths_replayed"], walks=s["walks"],
@@ -272,7 +273,7 @@ def sm_check(work, v, prop, tier, tables, traces, fields, design_props, note, fr
 
 
 IDX4 = [[], ["neg"], ["fwd"], ["neg", "fwd"]]
-C01_FIELDS = ["init", "len", "idx", "front", "back", "empty", "elems", "fifo", "integ"]
+C01_FIELDS = ["init", "len", "idx", "front", "back", "empty", "elems", "fifo", "integ", "locked"]
 
 
 @check("C01")
@@ -297,7 +298,7 @@ def c01(work, v, tier):
                     "histories recorded from the real Stack accepted line by line by StackageTrace.tla")
 
 
-C03_FIELDS = ["init", "len", "cap", "avail", "full", "elems", "integ"]
+C03_FIELDS = ["init", "len", "cap", "avail", "full", "elems", "integ", "locked"]
 
 
 @check("C03")
@@ -306,12 +307,14 @@ def c03(work, v, tier):
     tables = [("cap", dict(Caps=[1, 2, 3], MaxLen=3, Fams=["list", "marshal"], depth=2, walks=300, wlen=50)),
               ("xfer", dict(Caps=[1, 2, 3], Vals=["nil", "a"], MaxLen=3, Fams=["grow", "transfer", "marshal"],
                             DstCaps=[0], DstOps=["push", "pop"], depth=2, walks=300, wlen=50)),
+              ("cap-pol", dict(Caps=[1, 2], Vals=["nil", "a"], MaxLen=2, Fams=["grow", "policy", "marshal"], PushLens=[1, 2, 3], depth=2, walks=200, wlen=40)),
               ("nocap", dict(Caps=[0], MaxLen=3, Vals=["nil", "a"], Kinds=["AND", "LIST", "BASIC"], Fams=["grow", "marshal"], depth=2, walks=50))]
-    traces = [("rand", dict(traces=150 if q else 2000, len=80, fams=["list", "transfer", "marshal"], caps="1,2,3,4,5,0", maxlen=12))]
+    traces = [("rand", dict(traces=150 if q else 2000, len=80, fams=["list", "transfer", "marshal", "policy"], caps="1,2,3,4,5,0", maxlen=12, nvals=6))]
     if not q:
         tables = [("cap", dict(Caps=[1, 2, 3, 4], MaxLen=4, Fams=["list", "marshal"], depth=2, walks=3000, wlen=80)),
                   ("xfer", dict(Caps=[1, 2, 3], MaxLen=3, Fams=["grow", "transfer", "marshal"], Kinds=["AND", "LIST"],
                                 DstCaps=[0, 2], DstOps=["push", "pop"], depth=2, walks=3000, wlen=80)),
+                  ("cap-pol", dict(Caps=[1, 2, 3], MaxLen=3, Fams=["grow", "policy", "marshal"], PushLens=[1, 2, 3], depth=2, walks=2000, wlen=60)),
                   ("nocap", dict(Caps=[0], MaxLen=4, Kinds=["AND", "OR", "NOT", "LIST", "BASIC"], Fams=["grow", "marshal"], depth=3, walks=500))]
         traces.append(("boundary", dict(traces=1000, len=120, fams=["list", "transfer", "marshal"], caps="1,2,3", maxlen=6, salt=2)))
     return sm_check(work, v, "C03", tier, tables, traces, C03_FIELDS,
@@ -329,6 +332,8 @@ def c08(work, v, tier):
     q = tier == "quick"
     tables = [("idx", dict(Caps=[0, 3], InitOpts=IDX4, MaxLen=3 if q else 4, IdxMode="all", Fams=["list", "query"],
                            depth=2 if q else 2, walks=300 if q else 3000, wlen=40)),
+              ("idxmtx", dict(Caps=[0, 2], InitOpts=[[], ["neg", "fwd"]], InitMtx=[True], Vals=["nil", "a"], MaxLen=2 if q else 3, IdxMode="all",
+                              Fams=["list", "query"], PushLens=[1], depth=2, walks=200 if q else 2000, wlen=40)),
               ("idxkinds", dict(Caps=[0], Kinds=["OR", "NOT", "LIST", "BASIC"], InitOpts=[[], ["neg", "fwd"]], Vals=["nil", "a"],
                                 MaxLen=2 if q else 4, IdxMode="all", Fams=["list", "query"], PushLens=[1], depth=2, walks=100))]
     traces = [("rand", dict(traces=150 if q else 2000, len=60, fams=["list", "idxopts", "query"], mode="all"))]
